@@ -12,7 +12,7 @@ import (
 )
 
 // hand-written schemas with hand-written verdicts (JSON Schema as OpenAPI 3.0 reads it); the two recorded
-// deviations K19 / K20 / K36 are classified by the exact (operation, instance) pair, everything else here must agree
+// deviations K19 / K20 / K36–K39 are classified by the exact (operation, instance) pair, everything else here must agree
 const c03HandDoc = `{"openapi":"3.0.3","info":{"title":"t","version":"1"},"paths":{
  "/nul":{"post":{"operationId":"nul","requestBody":{"required":true,"content":{"application/json":{"schema":{"allOf":[{"type":"string","nullable":true},{"type":"string","minLength":1}]}}}},"responses":{"200":{"description":"ok"}}}},
  "/ghost":{"post":{"operationId":"ghost","requestBody":{"required":true,"content":{"application/json":{"schema":{"type":"object","required":["ghost"],"properties":{"a":{"type":"integer"}}}}}},"responses":{"200":{"description":"ok"}}}},
@@ -25,6 +25,11 @@ const c03HandDoc = `{"openapi":"3.0.3","info":{"title":"t","version":"1"},"paths
  "/arrm":{"post":{"operationId":"arrm","requestBody":{"required":true,"content":{"application/json":{"schema":{"allOf":[{"type":"array","items":{"type":"integer"},"minItems":1},{"type":"array","items":{"type":"integer","maximum":5},"maxItems":2,"uniqueItems":true}]}}}},"responses":{"200":{"description":"ok"}}}},
  "/shared":{"post":{"operationId":"shared","requestBody":{"required":true,"content":{"application/json":{"schema":{"allOf":[{"type":"object","properties":{"a":{"type":"integer","minimum":0}}},{"type":"object","required":["a"],"properties":{"a":{"type":"integer","maximum":5}}}]}}}},"responses":{"200":{"description":"ok"}}}},
  "/addp":{"post":{"operationId":"addp","requestBody":{"required":true,"content":{"application/json":{"schema":{"allOf":[{"type":"object","properties":{"a":{"type":"integer"}},"additionalProperties":false},{"type":"object","properties":{"b":{"type":"string"}}}]}}}},"responses":{"200":{"description":"ok"}}}},
+ "/req3":{"post":{"operationId":"req3","requestBody":{"required":true,"content":{"application/json":{"schema":{"allOf":[{"required":["c"]},{"type":"object","properties":{"b":{"type":"string"}}},{"type":"object","properties":{"c":{"type":"string"}}}]}}}},"responses":{"200":{"description":"ok"}}}},
+ "/req3b":{"post":{"operationId":"req3b","requestBody":{"required":true,"content":{"application/json":{"schema":{"allOf":[{"type":"object","properties":{"b":{"type":"string"}}},{"type":"object","properties":{"c":{"type":"string"}}},{"required":["c"]}]}}}},"responses":{"200":{"description":"ok"}}}},
+ "/enumb":{"post":{"operationId":"enumb","requestBody":{"required":true,"content":{"application/json":{"schema":{"type":"integer","enum":[1,5,10],"maximum":5}}}},"responses":{"200":{"description":"ok"}}}},
+ "/sib":{"post":{"operationId":"sib","requestBody":{"required":true,"content":{"application/json":{"schema":{"allOf":[{"type":"string"},{"maxLength":5}],"minLength":3}}}},"responses":{"200":{"description":"ok"}}}},
+ "/f32":{"post":{"operationId":"f32","requestBody":{"required":true,"content":{"application/json":{"schema":{"type":"number","format":"float","maximum":0.1}}}},"responses":{"200":{"description":"ok"}}}},
  "/both":{"post":{"operationId":"both","requestBody":{"required":true,"content":{"application/json":{"schema":{"oneOf":[{"$ref":"#/components/schemas/Cat"},{"$ref":"#/components/schemas/Dog"}]}}}},"responses":{"200":{"description":"ok"}}}},
  "/zero":{"post":{"operationId":"zero","requestBody":{"required":true,"content":{"application/json":{"schema":{"type":"object","properties":{"s":{"type":"string","maxLength":0},"a":{"type":"array","items":{"type":"integer"},"maxItems":0},"m":{"type":"object","additionalProperties":{"type":"integer"},"maxProperties":0}}}}}},"responses":{"200":{"description":"ok"}}}}
 },"components":{"schemas":{
@@ -47,6 +52,11 @@ var c03HandCases = []struct {
 	{"arrm", `[1]`, true, ""}, {"arrm", `[1,2]`, true, ""}, {"arrm", `[]`, false, ""}, {"arrm", `[1,1]`, false, ""}, {"arrm", `[6]`, false, ""}, {"arrm", `[1,2,3]`, false, ""},
 	{"shared", `{"a":3}`, true, ""}, {"shared", `{"a":0}`, true, ""}, {"shared", `{"a":5}`, true, ""}, {"shared", `{}`, false, ""}, {"shared", `{"a":-1}`, false, ""}, {"shared", `{"a":6}`, false, ""},
 	{"addp", `{"a":1}`, true, ""}, {"addp", `{}`, true, ""}, {"addp", `{"a":1,"b":"x"}`, false, "K36"}, {"addp", `{"a":1,"c":2}`, false, ""}, {"addp", `{"b":1}`, false, ""},
+	{"req3", `{"c":"x"}`, true, ""}, {"req3", `{"b":"y","c":"x"}`, true, ""}, {"req3", `{}`, false, ""}, {"req3", `{"b":"y"}`, false, ""},
+	{"req3b", `{"c":"x"}`, true, ""}, {"req3b", `{}`, false, ""}, {"req3b", `{"b":"y"}`, false, ""},
+	{"enumb", `1`, true, ""}, {"enumb", `5`, true, ""}, {"enumb", `2`, false, ""}, {"enumb", `10`, false, "K37"},
+	{"sib", `"abc"`, true, ""}, {"sib", `"abcde"`, true, ""}, {"sib", `"abcdef"`, false, ""}, {"sib", `"ab"`, false, "K38"},
+	{"f32", `0.05`, true, ""}, {"f32", `0.2`, false, ""}, {"f32", `0.1`, true, "K39"},
 	{"both", `{"meow":"m"}`, true, ""}, {"both", `{"bark":"b"}`, true, ""}, {"both", `{"meow":"m","bark":"b"}`, false, ""}, {"both", `{}`, false, ""}, {"both", `{"purr":1}`, false, ""},
 	{"zero", `{}`, true, ""}, {"zero", `{"s":"","a":[],"m":{}}`, true, ""}, {"zero", `{"s":"x"}`, false, ""}, {"zero", `{"a":[1]}`, false, ""}, {"zero", `{"m":{"k":1}}`, false, ""},
 }
@@ -94,7 +104,7 @@ func c03Hand(r *lp.Run, drv *gc.Driver, pkg *gc.Pkg) {
 		if f == nil {
 			continue
 		}
-		if c.class != "" && !c.valid && accepted {
+		if c.class != "" && (!c.valid && accepted || c.valid && refused) {
 			f.Class = c.class
 			r.Known(*f)
 			continue
@@ -322,5 +332,78 @@ func c03PropMerge(r *lp.Run, rng *lp.Rand) {
 			}
 		}
 		r.Case("pmerge", show(p1)+" "+showReq(r1)+" "+show(p2)+" "+showReq(r2), out, fmt.Sprintf("pmerge:shared%d", min(shared, 2)), len(p1) > 0 && len(p2) > 0)
+	}
+}
+
+// an allOf of 1–5 object members against the Lean model (driver tag nmerge): the left fold with the union of the
+// required lists carried along (fix 944cde35)
+func c03NMerge(r *lp.Run, rng *lp.Rand) {
+	for i := 0; i < r.N(6000, 60000); i++ {
+		n := 1 + rng.Intn(5)
+		members := make([]gen.VerifMember, n)
+		parts := make([]string, n)
+		early := false // a name required by a member before the one that declares it
+		declared := map[string]bool{}
+		for k := range members {
+			perm := rng.Perm(7)
+			var ps []gen.VerifProp
+			var req []string
+			for _, x := range perm[:rng.Intn(4)] {
+				p := gen.VerifProp{Name: fmt.Sprintf("n%d", x)}
+				if rng.Chance(35) {
+					p.Required = true
+					req = append(req, p.Name)
+				}
+				ps = append(ps, p)
+			}
+			for _, x := range perm[4:][:rng.Intn(3)] { // names this member requires without declaring them
+				name := fmt.Sprintf("n%d", x)
+				req = append(req, name)
+				if !declared[name] {
+					early = true
+				}
+			}
+			for _, p := range ps {
+				declared[p.Name] = true
+			}
+			members[k] = gen.VerifMember{Props: ps, Required: req}
+			var a, b []string
+			for _, p := range ps {
+				f := "0"
+				if p.Required {
+					f = "1"
+				}
+				a = append(a, strings.TrimPrefix(p.Name, "n")+":"+f)
+			}
+			for _, q := range req {
+				b = append(b, strings.TrimPrefix(q, "n"))
+			}
+			dash := func(l []string) string {
+				if len(l) == 0 {
+					return "-"
+				}
+				return strings.Join(l, ",")
+			}
+			parts[k] = dash(a) + "/" + dash(b)
+		}
+		out := lp.Guard(func() string {
+			m, err := gen.VerifMergeNProperties(members)
+			if err != nil {
+				return "err " + err.Error()
+			}
+			if len(m) == 0 {
+				return "-"
+			}
+			s := make([]string, len(m))
+			for i, p := range m {
+				f := "0"
+				if p.Required {
+					f = "1"
+				}
+				s[i] = strings.TrimPrefix(p.Name, "n") + ":" + f
+			}
+			return strings.Join(s, ",")
+		})
+		r.Case("nmerge", strings.Join(parts, ";"), out, fmt.Sprintf("nmerge:%d:early=%v", n, early), n >= 3 && early)
 	}
 }
